@@ -301,18 +301,15 @@ class C03(Prop):
           out += [([i] + sfx, m) for sfx, m in self.sub_paths(fd['elem'], depth + 1)]
     return out
 
-  def unfreeze_inner(self, d, top=False):
-    """No frozen containers in the generated nested-path cases: whether the child created from a frozen
-    default is bound to its spec depends on how it was created (pg.Dict root: bound; pg.Object root and
-    deeper levels: stored unbound), which is outside the model.  The F185 witness (corpus) covers the
-    frozen case on a pg.Dict root."""
+  def tidy_inner(self, d, top=False):
+    """Nested containers are neither noneable nor carry a default unless frozen (a noneable / defaulted
+    nested container re-applies its symbolic default through CustomTyping, outside the model)."""
     if d['k'] in ('list', 'dict', 'tuple', 'union'):
-      d.pop('fz', None)
       d['n'] = 0
-      if not top:
-        d.pop('d', None)       # (a nested / noneable container default is re-applied through CustomTyping)
+      if not top and not d.get('fz'):
+        d.pop('d', None)
     for sub in ([d['elem']] if 'elem' in d else []) + d.get('elems', []) + d.get('cands', []) + [f for _, f in (d.get('fields') or [])]:
-      self.unfreeze_inner(sub)
+      self.tidy_inner(sub)
 
   def gen_nested(self, rng, g, kind):
     """Dict / Object whose container-typed fields are rewritten through nested key paths
@@ -330,7 +327,11 @@ class C03(Prop):
               if c.get('d') == ['N'] or not rng.chance(0.3):
                 c.pop('d', None)
                 c.pop('fz', None)
-              self.unfreeze_inner(c, top=True)
+              self.tidy_inner(c, top=True)
+              if c.get('d') is None and rng.chance(0.2):
+                v = g.valid(c)
+                if v not in (['N'], ['M']):
+                  c['d'], c['fz'] = v, True       # a frozen container field: its content is sealed
               fd = c if rng.chance(0.8) else {'k': 'union', 'cands': [c, {'k': 'str', 'rx': None, 'n': 0}], 'n': 0}
               break
         fields.append([['c', nm], fd])
@@ -342,13 +343,31 @@ class C03(Prop):
       except (TypeError, ValueError, KeyError):
         continue
       break
-    items = [[f[0][1], g.valid(f[1])] for f in fields if not (f[1].get('d') is not None and rng.chance(0.3))]
+    # the frozen defaults as the real spec holds them (key order included)
+    state = tv.readback(tv.build(spec))
+    frozen_default = {}
+    for key, st in state[1]:
+      if st[-1][2]:
+        frozen_default.setdefault(key[1], []).append(st[-1][1])
+      if st[0] == 'union':
+        for cst in st[1]:
+          if cst[-1][2]:                          # a frozen Union candidate
+            frozen_default.setdefault(key[1], []).append(cst[-1][1])
+
+    def norm(k, v):
+      # stated assumption: equal dicts come in equal key order where a frozen default is compared
+      for fdv in frozen_default.get(k, []):
+        if canon(v) == canon(fdv):
+          return copy.deepcopy(fdv)
+      return v
+    items = [[f[0][1], norm(f[0][1], g.valid(f[1]))] for f in fields if not (f[1].get('d') is not None and rng.chance(0.3))]
     ops = []
     for _ in range(rng.randint(1, 7)):
       if rng.chance(0.25):
         k = rng.choice(names)
         fd = [f[1] for f in fields if f[0][1] == k][0]
         v = g.valid(fd) if rng.chance(0.7) else g.near_miss(fd)
+        v = norm(k, v)
         ops.append([[('setattr' if kind == 'object' else 'setitem'), k, v], None])
         continue
       entries = []
@@ -363,6 +382,11 @@ class C03(Prop):
           if fd is not None and fd['k'] == 'union':
             cont = ([c for c in fd['cands'] if c['k'] in ('list', 'dict')] or [fd])[0]
           step = 0 if (cont is not None and cont['k'] == 'list') else 'y'
+          if rng.chance(0.15) and cont is not None and (
+              cont['k'] == 'list' or (cont['k'] == 'dict' and cont.get('fields'))):
+            # a key of the wrong kind for a TYPED container (KeyError); an untyped dict (below `Any`)
+            # takes an int key as it is, and the model's dicts have string keys only
+            step = 'y' if step == 0 else 0
           path, m = [k] + ([step] if rng.chance(0.5) else []), (fd if fd is not None else None)
           if len(path) > 1:
             m = None
@@ -378,7 +402,9 @@ class C03(Prop):
           v = g.near_miss(m)
         else:
           v = ['M']
-        ins = isinstance(path[-1], int) and v != ['M'] and rng.chance(0.25)
+        # (an Insertion marker is only meaningful for a list position; on an untyped dict pyglove stores
+        # the marker object itself, which is a C02 matter)
+        ins = isinstance(path[-1], int) and v != ['M'] and m is not None and rng.chance(0.25)
         if [e for e in entries if e[0] == path]:
           continue
         entries.append([path, ins, v])
@@ -651,7 +677,7 @@ class C03(Prop):
       err = None
       try:
         run_list_op(pg, lst, op)
-      except (TypeError, ValueError, KeyError, IndexError) as e:
+      except (TypeError, ValueError, KeyError, IndexError, pg.WritePermissionError) as e:
         err = type(e).__name__
       n0 = len(why)
       m['steps'].append({'err': err, 'items': tv.from_py(lst)[1], 'conforms': conforms(lst)})
@@ -707,7 +733,7 @@ class C03(Prop):
       try:
         with ctx:
           run_dict_op(pg, target, pyop, is_object)
-      except (TypeError, ValueError, KeyError, IndexError) as e:
+      except (TypeError, ValueError, KeyError, IndexError, pg.WritePermissionError) as e:
         err = type(e).__name__
       # every symbolic member still knows its place (parent and key), also after a rejected write
       att = True
@@ -826,7 +852,7 @@ class C03(Prop):
           add('required-field-missing:%s:%s' % (kind, op[0]),
               'after %s (never partial) a required field is missing: %s' % (json.dumps(op), json.dumps(s['items'])))
       bad_before = bad
-      if s['err'] in SCHEMA_ERRS:
+      if s['err'] in SCHEMA_ERRS + ('WritePermissionError',):
         batch = op[0] in ('extend', 'iadd', 'extend_iter', 'iadd_iter', 'imul', 'setslice', 'rebind', 'update', 'ior', 'rebind_paths')
         if not batch and s['items'] != prev:
           add('rejected-write-stored:%s:%s' % (kind, op[0]),
@@ -854,7 +880,7 @@ class C03(Prop):
             cls = c04.PROP.classify(d, src, a[3])
             if ('<-' in cls or cls == 'missing-into-frozen') and (c04.dict_default_gap(d, src) or c04.dict_default_gap(src, d)):
               cls = 'dict-field-default-ignored'   # compatibility does not look at field defaults (C04 F42)
-            if '<-' in cls and member_ok(tv.build(c04.strip_rx(fields[k])), canon(a[3]), True):
+            if ('<-' in cls or cls == 'missing-into-frozen') and member_ok(tv.build(c04.strip_rx(fields[k])), canon(a[3]), True):
               cls = 'str-regex-ignored'      # is_compatible documents that it ignores Str regexes
             return cls
     return None
